@@ -34,7 +34,9 @@ pub fn judge(case: &Value, variant: usize) -> Option<Value> {
     if variant % 2 == 1 { text.push_str("\n1 2"); }
     let mut xs = fresh();
     let prior = variant % 3;
-    for _ in 0..prior { let _ = xs.eval("1 drop"); }
+    // earlier sources on the same interpreter: another text, and (prior = 2) the very same text, which fails the same way
+    if prior >= 1 { let _ = xs.eval("1 drop"); }
+    if prior >= 2 { let _ = guarded(|| xs.eval(&text)); }
     let nsrc = xs.verif_dump().sources_len;
     let r = guarded(|| xs.eval(&text));
     let mut why: Vec<String> = vec![];
